@@ -12,6 +12,8 @@ CONSTANTS
   CompileMode = "stated"
   Inners <- InnersNone
   ScopeMode = "stated"
+  Doors <- DoorsApi
+  HookMode = "stated"
 INIT GInitQuick
 NEXT GNext
 INVARIANTS ExpectInv CompileInv Emit
